@@ -46,7 +46,8 @@ THEOREMS = {
     "C08": _gt("errEnum_eq", "tldTypeEnum_eq", "tldBitEnum_eq", "init_values") + [("Eav.Props.C08", "Eav.Props.C08." + n) for n in
             ("policyArm_eq", "policy_iff", "own_bit_only", "negative_rc_any_mask", "zero_rc_any_mask", "mask_irrelevant_unless_class",
              "abort_only_outside_classes", "init_defaults")],
-    "C09": _gt("reserved_eq", "example_eq", "exampleLabel_eq", "lenFilter_eq", "tldTypeEnum_eq"),
+    "C09": _gt("reserved_eq", "example_eq", "exampleLabel_eq", "lenFilter_eq", "tldTypeEnum_eq") + [("Eav.Props.C09", "Eav.Props.C09." + n) for n in
+            ("walkers", "skip_to_last_two", "checkTable_iff", "filter_ok", "tail_decision", "special_iff", "special_iff_host", "copyLabel_take")],
     "C10": _gt("errEnum_eq"),
     "C11": _gt("tldTypeEnum_eq") + [("Eav.Props.C11", "Eav.Props.C11." + n) for n in
             ("table_eq_gen", "names_sorted", "names_distinct", "names_lower_alabel", "lengths_and_types", "same_rows", "ascii_rows_equal",
